@@ -225,7 +225,7 @@ def d1_offsets(chk, prog):
             continue
         n_w += 1
         W.reset()
-        MS, ME = Term.sym("mem_start", 0, INF, True), Term.sym("mem_end", 1, INF, True)
+        MS, ME = Term.sym("mem_start", 1, INF, True), Term.sym("mem_end", 2, INF, True)
         it = Interp(prog, Model())
         cols = {"chromosome": "chr1", "start": MS, "end": ME, "gene": "GENE", "log2": Term.sym("m_log2"), "depth": Term.sym("m_depth", 0, INF),
                 "gc": Term.sym("m_gc"), "probes": Term.sym("m_probes", 0, INF, True), "weight": Term.sym("m_w")}
@@ -259,10 +259,36 @@ def d1_offsets(chk, prog):
         untouched = same(df_in.cols["start"].v[0], MS) and same(df_in.cols["end"].v[0], ME)
         chk.decide(untouched, "coordinate-offset", f"writer {fmt}: the caller's frame is not modified", f"writer-input:{fmt}:{fi.qn}", fi.loc(),
                    f"writer shifts the coordinates of the frame it was given (start now {df_in.cols['start'].v[0]!r})")
+        # the same writer on a row that starts at the first base of its chromosome (start 0; the symbolic start above stands for the positive ones)
+        W.reset()
+        it0 = Interp(prog, Model())
+        cols0 = dict(cols, start=0, end=Term.sym("mem_end", 1, INF, True))
+        df0 = DF({k: Vec([v]) for k, v in cols0.items()}, 1)
+        try:
+            out0 = it0.run(fi.qn, [df0], kw)
+        except Undecided as e:
+            raise AnalysisError(f"C08-D1 writer {fmt} on a row starting at 0 ({fi.qn}): cannot decide: {e}")
+        except Raised as e:
+            chk.violate("coordinate-offset", f"writer-zero:{fmt}:{fi.qn}", fi.loc(), f"writer raises on a row whose start is 0: {e}")
+            continue
+        s0 = None
+        if isinstance(out0, DF) and sc in out0.cols:
+            s0 = out0.cols[sc].v[0]
+        elif isinstance(out0, Vec) and out0.v and isinstance(out0.v[0], (FStr, str)):
+            x0 = out0.v[0]
+            s0 = x0.field(":") if isinstance(x0, FStr) else None
+            if s0 is None:
+                # the start is a literal here, so it is part of the text: chr:<start>-...
+                import re as _re
+                text0 = "".join(p_ if isinstance(p_, str) else "{}" for p_ in x0.parts) if isinstance(x0, FStr) else x0
+                m0 = _re.match(r"[^:]*:(\d+)-", text0)
+                s0 = int(m0.group(1)) if m0 else None
+        chk.decide(s0 is not None and same(s0, BASE[fmt]), "coordinate-offset", f"writer {fmt}: a row starting at 0 is written with start {BASE[fmt]}", f"writer-zero:{fmt}:{fi.qn}", fi.loc(),
+                   f"a region starting at the first base of its chromosome (start 0) is written with start {s0!r} (expected {BASE[fmt]}): reading it back fails or moves the region")
         # the same writer on three rows whose index labels are not 0..n-1 (a filtered or re-ordered table): every output line describes one row
         W.reset()
         chroms3 = ["chrA", "chrB", "chrC"]
-        S3 = [Term.sym(f"mem_start{i}", 0, INF, True) for i in range(3)]
+        S3 = [Term.sym(f"mem_start{i}", 1, INF, True) for i in range(3)]
         E3 = [Term.sym(f"mem_end{i}", 1, INF, True) for i in range(3)]
         rows3 = []
         for i in range(3):
@@ -302,7 +328,7 @@ def d1_offsets(chk, prog):
         if fmt != "bed3":
             # the same writer on a table that also carries a strand column (read from a 6-column BED or an interval list)
             W.reset()
-            MS, ME = Term.sym("mem_start", 0, INF, True), Term.sym("mem_end", 1, INF, True)
+            MS, ME = Term.sym("mem_start", 1, INF, True), Term.sym("mem_end", 2, INF, True)
             cols2 = dict(cols, start=MS, end=ME, strand="+")
             df2 = DF({k: Vec([v]) for k, v in cols2.items()}, 1)
             it2 = Interp(prog, Model())
@@ -332,7 +358,7 @@ def d1_offsets(chk, prog):
     # to_label / from_label (used by GenomicArray.labels and region arguments)
     W.reset()
     it = Interp(prog, Model())
-    MS, ME = Term.sym("mem_start", 0, INF, True), Term.sym("mem_end", 1, INF, True)
+    MS, ME = Term.sym("mem_start", 1, INF, True), Term.sym("mem_end", 2, INF, True)
     fi = prog.fn("skgenome.rangelabel.to_label")
     out = it.run(fi.qn, [Row({"chromosome": "chr1", "start": MS, "end": ME})])
     ok = isinstance(out, FStr) and same(out.field(":"), t_add(MS, Term.const(1))) and same(out.field("-"), ME)
